@@ -221,6 +221,8 @@ struct FnDirective {
     noisolation: bool,
     guards: Vec<String>,
     mutparams: Vec<String>,
+    retain_captures: Vec<(String, String)>,
+    retain_clauses: Vec<String>,
 }
 
 struct Hint {
@@ -599,6 +601,7 @@ fn main() {
                 nocanary: opts.contains_key("nocanary"),
                 noisolation: opts.contains_key("noisolation"),
                 guards: opts.get("guards").map(|s| s.split_whitespace().map(|x| x.to_string()).collect()).unwrap_or_default(),
+                retain_captures: opts.get("retain_captures").map(|s| s.split(';').filter_map(|x| x.split_once(':').map(|(a, b)| (a.trim().to_string(), b.trim().to_string()))).collect()).unwrap_or_default(),
                 mutparams: opts.get("mutparams").map(|s| s.split_whitespace().map(|x| x.to_string()).collect()).unwrap_or_default(),
                 ..Default::default()
             };
@@ -608,6 +611,7 @@ fn main() {
                 Clauses,
                 Loop(usize),
                 Hint,
+                Retain,
             }
             let mut mode = Mode::Clauses;
             loop {
@@ -629,6 +633,8 @@ fn main() {
                         }
                     }
                     mode = Mode::Loop(n);
+                } else if lt.starts_with("//@retainbody") {
+                    mode = Mode::Retain;
                 } else if let Some(r) = lt.strip_prefix("//@hint ") {
                     let r = r.trim();
                     let mut arm = false;
@@ -655,6 +661,7 @@ fn main() {
                         Mode::Clauses => d.clauses.push(l.to_string()),
                         Mode::Loop(n) => d.loops.get_mut(&n).unwrap().push(l.to_string()),
                         Mode::Hint => d.hints.last_mut().unwrap().lines.push(l.to_string()),
+                        Mode::Retain => d.retain_clauses.push(l.to_string()),
                     }
                 }
                 i += 1;
@@ -790,6 +797,8 @@ fn emit_fn(
     let mut rw = Rw::new(maps, method_maps);
     rw.noop_methods = noop.clone();
     rw.guards = d.guards.iter().cloned().collect();
+    rw.retain_captures = d.retain_captures.clone();
+    rw.fn_name = d.rename.clone().unwrap_or_else(|| d.name.clone());
     let mut impl_header = String::new();
     let mut moved_generics: Vec<GenericParam> = Vec::new();
     let mut all_preds: Vec<WherePredicate> = Vec::new();
@@ -965,6 +974,58 @@ fn emit_fn(
     }
     if !rw.unsupported.is_empty() {
         die(&format!("{} :: {} :: {}: {}", d.file, d.selector, d.name, rw.unsupported.join("; ")));
+    }
+    // R18: lifted retain closures become associated functions of the same impl block
+    let mut lifted_text: Vec<String> = Vec::new();
+    if !rw.lifted.is_empty() {
+        // the map's key / value types: generic arguments of the receiver field's type in the struct definition
+        let (kty, vty) = im
+            .as_ref()
+            .and_then(|im| {
+                let sname = type_last_ident(&im.self_ty);
+                f.items.iter().chain(f.pp_types.iter()).find_map(|it| match it {
+                    Item::Struct(st) if st.ident == sname.as_str() => st.fields.iter().find_map(|fl| {
+                        if let Type::Path(tp) = &fl.ty {
+                            let seg = tp.path.segments.last()?;
+                            if seg.ident == "HashMap" {
+                                if let PathArguments::AngleBracketed(ab) = &seg.arguments {
+                                    let tys: Vec<String> = ab.args.iter().map(|a| a.to_token_stream().to_string()).collect();
+                                    if tys.len() == 2 {
+                                        return Some((tys[0].clone(), tys[1].clone()));
+                                    }
+                                }
+                            }
+                        }
+                        None
+                    }),
+                    _ => None,
+                })
+            })
+            .unwrap_or_else(|| die("R18: cannot find the HashMap field's key/value types"));
+        for (fname, kpat, vpat, lb) in rw.lifted.clone() {
+            let kp = if matches!(kpat, Pat::Wild(_)) { "__k".to_string() } else { kpat.to_token_stream().to_string() };
+            let vp = vpat.to_token_stream().to_string();
+            let caps: Vec<String> = d.retain_captures.iter().map(|(n, t)| format!("{n}: {t}")).collect();
+            let wrapped = format!("fn __vx_wrap() {}", lb.to_token_stream());
+            let fmt = rustfmt(&wrapped);
+            let mut bl: Vec<String> = fmt.lines().map(|s| s.to_string()).collect();
+            bl.remove(0);
+            while bl.last().map_or(false, |l| l.trim().is_empty()) {
+                bl.pop();
+            }
+            bl.pop();
+            let mut t = Vec::new();
+            t.push(format!("// R18: closure of `retain` in {} lifted to a function (captures become parameters)", d.name));
+            t.push(format!("fn {fname}({kp}: &{kty}, {vp}: &mut {vty}, {}) -> (keep: bool)", caps.join(", ")));
+            if !preds_for_lifted(&all_preds).is_empty() {
+                t.push(format!("    where {}", preds_for_lifted(&all_preds)));
+            }
+            t.extend(d.retain_clauses.iter().cloned());
+            t.push("{".into());
+            t.extend(bl);
+            t.push("}".into());
+            lifted_text.push(t.join("\n"));
+        }
     }
     let wrapped = format!("fn __vx_wrap() {}", block.to_token_stream());
     let fmt = rustfmt(&wrapped);
@@ -1157,6 +1218,13 @@ fn emit_fn(
         if !impl_header.is_empty() {
             target.push(format!("{impl_header} {{"));
         }
+        if !canary {
+            for lt in &lifted_text {
+                for l in lt.split('\n') {
+                    target.push(l.to_string());
+                }
+            }
+        }
         if d.trusted {
             target.push("#[verifier::external_body]".into());
         }
@@ -1222,6 +1290,10 @@ fn emit_fn(
         "gen_lines": [s, e], "body_start": bs, "canary_lines": [cs, ce],
         "props": d.props, "skipped_hints": skipped_hints, "rewrites": rw.log, "loops": nloops, "trusted": d.trusted, "nocanary": d.nocanary,
     }));
+}
+
+fn preds_for_lifted(all: &[WherePredicate]) -> String {
+    all.iter().map(|p| one_line(&p.to_token_stream().to_string())).collect::<Vec<_>>().join(", ")
 }
 
 fn one_line(s: &str) -> String {
